@@ -1,13 +1,13 @@
 SPECIFICATION MCSpecOpen
 CONSTANTS
-  Peers = {"p1", "p2", "p3"}
+  Peers = {"p1", "p2"}
   Manager = "p1"
   Access = {"write", "pull"}
-  Classes = {"update", "member_new_space"}
+  Classes = {"update", "auth_promote", "app_wrong_secret", "member_new_space"}
   PanicClasses = {}
   ReEmitKinds = {}
   OkClasses = {"member_new_space"}
-  MaxOps = 2
+  MaxOps = 3
   MaxForge = 1
   MaxAgain = 1
   MaxSteps = 99
